@@ -56,7 +56,7 @@ theorem lineRun_echo (h : Frame ℝ → Frame ℝ) (h0 : h Frame.zero = Frame.ze
     intro a j v t ht
     cases a with
     | zero =>
-      simp only [List.replicate_zero, List.nil_append, List.replicate_succ, lineRun, Frame.zero_add]
+      simp only [List.replicate_zero, List.nil_append, List.replicate_succ, lineRun, FrameB.zero_add]
       cases t with
       | zero => simp [echoAt]
       | succ t =>
@@ -81,7 +81,7 @@ theorem lineRun_echo (h : Frame ℝ → Frame ℝ) (h0 : h Frame.zero = Frame.ze
           rw [Nat.sub_zero] at this
           simp [hjt, this]
     | succ a =>
-      simp only [List.replicate_succ, List.cons_append, lineRun, h0, Frame.add_zero]
+      simp only [List.replicate_succ, List.cons_append, lineRun, h0, FrameB.add_zero]
       have hb : (List.replicate a (Frame.zero : Frame ℝ) ++ v :: List.replicate j Frame.zero) ++ [Frame.zero]
           = List.replicate a Frame.zero ++ v :: List.replicate (j + 1) Frame.zero := by
         simp [List.replicate_succ', List.append_assoc]
@@ -122,7 +122,7 @@ theorem lineRun_impulse (h : Frame ℝ → Frame ℝ) (h0 : h Frame.zero = Frame
     (t : ℕ) (ht : t ≤ n) :
     (lineRun h (List.replicate (L' + 1) Frame.zero) (x0 :: List.replicate n Frame.zero)).2[t]?
       = some (delayEcho h x0 (L' + 1) t) := by
-  simp only [List.replicate_succ, lineRun, h0, Frame.add_zero]
+  simp only [List.replicate_succ, lineRun, h0, FrameB.add_zero]
   cases t with
   | zero => simp [delayEcho]
   | succ t =>
